@@ -344,6 +344,9 @@ fn minimise(check: &str, seed: u64, idx: u64, comp: &Component, sched: &SchedSpe
 }
 
 pub fn replay(file: &ReplayFile, path: &Path) -> i32 {
+    if !file.extra["miri"].is_null() {
+        return crate::miri::replay(&file.extra, path, &file.property, &file.class);
+    }
     let comp = Component::from_json(&file.extra["component"]);
     let out = run_component(&comp, &file.sched, Some(file.trace.clone()), false);
     for h in &out.harness {
@@ -443,6 +446,34 @@ pub fn run_component_check(check: &str, tier: Tier, seed: u64) -> i32 {
     known_hits += k2;
     exit = exit.max(e2);
 
+    // weak-memory sampling of the same production files under Miri
+    let miri = crate::miri::run(check, tier == Tier::Thorough, seed);
+    for e in &miri.harness_errors {
+        println!("HARNESS-ERROR check={check} miri: {e}");
+        exit = exit.max(2);
+    }
+    for (scenario, miri_seed, msg) in &miri.violations {
+        let file = ReplayFile {
+            check: check.to_string(),
+            property: check.to_string(),
+            class: format!("miri.{scenario}"),
+            detail: msg.clone(),
+            seed,
+            case_index: *miri_seed,
+            scenario: Scenario::empty(),
+            sched: checks::sched_for(seed, 0, SchedMode::Any),
+            trace: Trace::default(),
+            extra: json!({"miri": {"scenario": scenario, "seed": miri_seed}}),
+        };
+        let path = file.write();
+        violations += 1;
+        println!("VIOLATION property={check} replay={}", path.display());
+        println!("  class=miri.{scenario} miri_seed={miri_seed} detail={msg}");
+        if exit == 0 {
+            exit = 1;
+        }
+    }
+
     let rule = match check {
         "C15" => "cases = (a) production SchedulerContext with 1-3 claimer tasks and 1-2 rewinder tasks on 2-8 indices, (b) ExecutionFrontier with 1-3 publishers (arbitrary order, gaps, duplicates) and 1-2 readers, (c) real pipeline runs with the finality/rewind trace monitor; non-trivial = an effective rewind below the cursor / a frontier value that moved / a pipeline run with re-execution; distinct = distinct event log digest",
         "C16" => "cases = production TxDependency with 2-5 transactions, 1-3 worker tasks and a commit task driven with the call protocol of scheduler.rs from seeded per-transaction scripts (conflict on predecessor / error parked behind the commit boundary / success), plus strict-mode pipeline runs with conflict and fault profiles; non-trivial = some transaction executed more than once; distinct = distinct (claims, re-onboardings) vector",
@@ -462,7 +493,7 @@ pub fn run_component_check(check: &str, tier: Tier, seed: u64) -> i32 {
         real_components: vec!["SchedulerContext / RewindableCursor / PublishedCursor / ExecutionFrontier / TxDependency / WaitSlot (production code, called directly)", "the full pipeline for the trace-monitor part"],
         replaced_components: checks::REPLACED.to_vec(),
         stubbed_components: vec!["the scheduler's call protocol around TxDependency (driver mirrors scheduler.rs)", "backing database and precompiles in the pipeline part"],
-        extra: json!({"jobs": checks::jobs(), "component_runs": runs, "pipeline_runs": pipeline_runs, "miri": crate::miri::last_report(check)}),
+        extra: json!({"jobs": checks::jobs(), "component_runs": runs, "pipeline_runs": pipeline_runs, "miri": miri.report}),
     };
     batch::write_evidence(&meta, &agg, wall, violations, known_hits);
     println!(
